@@ -163,26 +163,66 @@ def _sext(t, w):
     return z3.SignExt(d, t)
 
 
-class SymInt:
-    """Exact Python int.  t: signed bit-vector, value in [lo, hi]."""
+class _Atom:
+    """an opaque signed bit-vector term with a sound interval"""
 
-    __slots__ = ("t", "lo", "hi")
+    __slots__ = ("t", "lo", "hi", "key")
 
     def __init__(self, t, lo, hi):
-        self.t = t
-        self.lo = lo
-        self.hi = hi
+        self.t, self.lo, self.hi = t, lo, hi
+        self.key = t.get_id()
+
+
+class SymInt:
+    """Exact Python int in linear normal form  c0 + sum(coef_i * atom_i)  over opaque signed
+    bit-vector atoms.  Carries a sound interval [lo, hi]; the bit-vector term is materialised
+    lazily at the minimal width that holds the interval (nothing ever wraps)."""
+
+    __slots__ = ("atoms", "c0", "lo", "hi", "_t")
+
+    def __init__(self, t, lo, hi):
+        """a single atom: the signed bit-vector `t` whose value lies in [lo, hi]"""
+        w = _width_for(lo, hi)
+        if t.size() > w:
+            t = z3.Extract(w - 1, 0, t)
+        a = _Atom(t, lo, hi)
+        self.atoms = {a.key: (1, a)}
+        self.c0 = 0
+        self.lo, self.hi = lo, hi
+        self._t = None
 
     # ---- construction
+    @staticmethod
+    def _lin(atoms, c0, lo=None, hi=None):
+        atoms = {k: v for k, v in atoms.items() if v[0] != 0}
+        if not atoms:
+            return c0
+        l = h = c0
+        for c, a in atoms.values():
+            if c > 0:
+                l += c * a.lo
+                h += c * a.hi
+            else:
+                l += c * a.hi
+                h += c * a.lo
+        if lo is not None:
+            l = max(l, lo)
+        if hi is not None:
+            h = min(h, hi)
+        if l > h:
+            raise PathAbort()
+        if l == h:
+            return l
+        x = SymInt.__new__(SymInt)
+        x.atoms, x.c0, x.lo, x.hi, x._t = atoms, c0, l, h, None
+        return x
+
     @staticmethod
     def mk(t, lo, hi):
         if lo > hi:
             raise PathAbort()
         if lo == hi:
             return lo
-        w = _width_for(lo, hi)
-        if t.size() != w:
-            t = _sext(t, w)
         return SymInt(t, lo, hi)
 
     @staticmethod
@@ -190,9 +230,33 @@ class SymInt:
         n = bv.size()
         return SymInt.mk(z3.ZeroExt(1, bv), 0 if lo is None else lo, (1 << n) - 1 if hi is None else hi)
 
+    def refine(self, lo, hi):
+        """same value, tighter interval (the caller knows the bound holds on this path)"""
+        return SymInt._lin(self.atoms, self.c0, max(lo, self.lo), min(hi, self.hi))
+
+    @property
+    def t(self):
+        if self._t is None:
+            w = _width_for(self.lo, self.hi)
+            if len(self.atoms) == 1 and self.c0 == 0:
+                (c, a), = self.atoms.values()
+                if c == 1:
+                    self._t = _sext(a.t, w)
+                    return self._t
+            acc = None
+            for k in sorted(self.atoms):
+                c, a = self.atoms[k]
+                at = _sext(a.t, w)
+                term = at if c == 1 else (-at if c == -1 else at * z3.BitVecVal(c % (1 << w), w))
+                acc = term if acc is None else acc + term
+            if self.c0 != 0:
+                acc = acc + z3.BitVecVal(self.c0 % (1 << w), w)
+            self._t = acc
+        return self._t
+
     @property
     def w(self):
-        return self.t.size()
+        return _width_for(self.lo, self.hi)
 
     def term(self, w=None):
         return self.t if w is None else _sext(self.t, w)
@@ -210,19 +274,27 @@ class SymInt:
             return SymInt(z3.If(o.t, z3.BitVecVal(1, 2), z3.BitVecVal(0, 2)), 0, 1)
         return None
 
+    def _addsub(self, o, sign):
+        atoms = dict(self.atoms)
+        for k, (c, a) in o.atoms.items():
+            if k in atoms:
+                atoms[k] = (atoms[k][0] + sign * c, a)
+            else:
+                atoms[k] = (sign * c, a)
+        lo = self.lo + (o.lo if sign > 0 else -o.hi)
+        hi = self.hi + (o.hi if sign > 0 else -o.lo)
+        return SymInt._lin(atoms, self.c0 + sign * o.c0, lo, hi)
+
     def __add__(self, o):
         o = SymInt._coerce(o)
         if o is None:
             return NotImplemented
-        lo, hi = self.lo + o.lo, self.hi + o.hi
-        w = max(self.w, o.w) + 1
-        return SymInt.mk(self.term(w) + o.term(w), lo, hi)
+        return self._addsub(o, 1)
 
     __radd__ = __add__
 
     def __neg__(self):
-        w = self.w + 1
-        return SymInt.mk(-self.term(w), -self.hi, -self.lo)
+        return SymInt._lin({k: (-c, a) for k, (c, a) in self.atoms.items()}, -self.c0, -self.hi, -self.lo)
 
     def __pos__(self):
         return self
@@ -231,15 +303,13 @@ class SymInt:
         o = SymInt._coerce(o)
         if o is None:
             return NotImplemented
-        w = max(self.w, o.w) + 1
-        return SymInt.mk(self.term(w) - o.term(w), self.lo - o.hi, self.hi - o.lo)
+        return self._addsub(o, -1)
 
     def __rsub__(self, o):
         o = SymInt._coerce(o)
         if o is None:
             return NotImplemented
-        w = max(self.w, o.w) + 1
-        return SymInt.mk(o.term(w) - self.term(w), o.lo - self.hi, o.hi - self.lo)
+        return o._addsub(self, -1)
 
     def __mul__(self, o):
         if isinstance(o, (str, bytes, list, tuple)) or isinstance(o, SymSeq):
@@ -247,6 +317,14 @@ class SymInt:
         o = SymInt._coerce(o)
         if o is None:
             return NotImplemented
+        if not o.atoms:
+            k = o.c0
+            if k == 0:
+                return 0
+            cands = [self.lo * k, self.hi * k]
+            return SymInt._lin({key: (c * k, a) for key, (c, a) in self.atoms.items()}, self.c0 * k, min(cands), max(cands))
+        if not self.atoms:
+            return o.__mul__(self.c0)
         cands = [self.lo * o.lo, self.lo * o.hi, self.hi * o.lo, self.hi * o.hi]
         w = self.w + o.w
         return SymInt.mk(self.term(w) * o.term(w), min(cands), max(cands))
@@ -258,37 +336,37 @@ class SymInt:
             raise Unsupported("division of a symbolic int by a symbolic value")
         if c <= 0:
             raise Unsupported("division of a symbolic int by a non-positive constant")
+        if c == 1:
+            return self, 0
         qlo, qhi = self.lo // c, self.hi // c
         if qlo == qhi:
             rlo, rhi = self.lo - qlo * c, self.hi - qlo * c
         else:
             rlo, rhi = 0, c - 1
-        if c & (c - 1) == 0 and self.lo >= 0:
-            # power of two: pure bit extraction
-            k = c.bit_length() - 1
-            w = self.w
-            q = z3.Extract(w - 1, k, self.t) if w > k else z3.BitVecVal(0, 1)
-            qi = SymInt.mk(z3.ZeroExt(1, q), qlo, qhi)
-            ri = SymInt.mk(z3.ZeroExt(1, z3.Extract(k - 1, 0, self.t)) if k > 0 else z3.BitVecVal(0, 1), rlo, rhi) if k > 0 else 0
-            return qi, ri
+        # exact: every coefficient divisible by c
+        if all(cf % c == 0 for cf, _a in self.atoms.values()):
+            q = SymInt._lin({k: (cf // c, a) for k, (cf, a) in self.atoms.items()}, self.c0 // c, qlo, qhi)
+            return q, self.c0 % c
+        if qlo == qhi:
+            return qlo, self - qlo * c
         if E.active():
             # division-free: fresh quotient and remainder, defined by a = c*q + r, 0 <= r < c
             p = E.cur()
-            wq = _width_for(qlo, qhi)
-            wr = _width_for(0, c - 1)
-            qv = p.fresh_bv("divq", wq)
-            rv = p.fresh_bv("divr", wr)
-            qi = SymInt(qv, qlo, qhi) if qlo != qhi else qlo
+            key = ("divmod", self.t.get_id(), c)
+            cache = p.notes.setdefault("divmod_cache", {})
+            if key in cache:
+                return cache[key][1]
+            qv = p.fresh_bv("divq", _width_for(qlo, qhi))
+            rv = p.fresh_bv("divr", _width_for(0, c - 1))
+            qi = SymInt(qv, qlo, qhi)
             ri = SymInt(rv, rlo, rhi) if rlo != rhi else rlo
-            cs = []
-            if qlo != qhi:
-                cs += [qv >= qlo, qv <= qhi]
+            cs = [qv >= qlo, qv <= qhi]
             if rlo != rhi:
                 cs += [rv >= rlo, rv <= rhi]
-            tot = qi * c + ri
-            e = i_eq(tot, self)
+            e = i_eq(qi * c + ri, self)
             cs.append(bterm(e))
             p.constrain(z3.And(*cs))
+            cache[key] = (self.t, (qi, ri))
             return qi, ri
         w = max(self.w, _width_for(0, c)) + 1
         a = self.term(w)
@@ -297,14 +375,11 @@ class SymInt:
             q = z3.UDiv(a, cv)
             r = z3.URem(a, cv)
         else:
-            # floor semantics for negatives
             na = -a
             qn = -z3.UDiv(na + cv - 1, cv)
             q = z3.If(a >= 0, z3.UDiv(a, cv), qn)
             r = a - q * cv
-        qi = SymInt.mk(q, qlo, qhi)
-        ri = SymInt.mk(r, rlo, rhi)
-        return qi, ri
+        return SymInt.mk(q, qlo, qhi), SymInt.mk(r, rlo, rhi)
 
     def __floordiv__(self, c):
         return self._divmod_const(c)[0]
@@ -328,6 +403,7 @@ class SymInt:
             return NotImplemented
         w = max(self.w, o.w)
         a, b = self.term(w), o.term(w)
+        full = (-(1 << (w - 1)), (1 << (w - 1)) - 1)
         if op == "and":
             t = a & b
             if o.lo >= 0 and self.lo >= 0:
@@ -337,15 +413,15 @@ class SymInt:
             elif self.lo >= 0:
                 lo, hi = 0, self.hi
             else:
-                lo, hi = -(1 << (w - 1)), (1 << (w - 1)) - 1
+                lo, hi = full
         elif op == "or":
             t = a | b
-            lo, hi = -(1 << (w - 1)), (1 << (w - 1)) - 1
+            lo, hi = full
             if self.lo >= 0 and o.lo >= 0:
                 lo = 0
         else:
             t = a ^ b
-            lo, hi = -(1 << (w - 1)), (1 << (w - 1)) - 1
+            lo, hi = full
             if self.lo >= 0 and o.lo >= 0:
                 lo = 0
         return SymInt.mk(t, lo, hi)
@@ -375,32 +451,71 @@ class SymInt:
             raise Unsupported("shift by symbolic amount")
         return self // (1 << k)
 
-    # ---- comparisons
+    # ---- comparisons (normalised: difference, gcd of the coefficients, canonical sign)
     def _cmp(self, o, op):
         o = SymInt._coerce(o)
         if o is None:
             return NotImplemented
+        d = o._addsub(self, -1)  # o - self
+        if isinstance(d, int):
+            return {"lt": d > 0, "le": d >= 0, "eq": d == 0}[op]
         # interval shortcuts
         if op == "lt":
-            if self.hi < o.lo:
+            if d.lo > 0:
                 return True
-            if self.lo >= o.hi:
+            if d.hi <= 0:
                 return False
         elif op == "le":
-            if self.hi <= o.lo:
+            if d.lo >= 0:
                 return True
-            if self.lo > o.hi:
+            if d.hi < 0:
                 return False
-        elif op == "eq":
-            if self.hi < o.lo or self.lo > o.hi:
+        else:
+            if d.lo > 0 or d.hi < 0:
                 return False
-        w = max(self.w, o.w)
-        a, b = self.term(w), o.term(w)
-        if op == "lt":
-            return SymBool(a < b)
-        if op == "le":
-            return SymBool(a <= b)
-        return SymBool(a == b)
+        import math
+
+        g = 0
+        for c, _a in d.atoms.values():
+            g = math.gcd(g, abs(c))
+        first = d.atoms[min(d.atoms)][0]
+        sgn = 1 if first > 0 else -1
+        # L = sgn * sum(coef/g * atom);  d = sgn*g*L + c0
+        L = SymInt._lin({k: (sgn * c // g, a) for k, (c, a) in d.atoms.items()}, 0)
+        c0 = d.c0
+        if op == "eq":
+            # sgn*g*L = -c0
+            if c0 % g != 0:
+                return False
+            k = (-c0 // g) * sgn
+            if isinstance(L, int):
+                return L == k
+            if k < L.lo or k > L.hi:
+                return False
+            w = L.w
+            return SymBool(L.t == z3.BitVecVal(k % (1 << w), w))
+        # d > 0 (lt) or d >= 0 (le):   sgn*g*L > -c0   /   >= -c0
+        bound = -c0 if op == "le" else -c0 + 1  # sgn*g*L >= bound
+        if sgn > 0:
+            k = -((-bound) // g)  # ceil(bound / g)
+            if isinstance(L, int):
+                return L >= k
+            if k <= L.lo:
+                return True
+            if k > L.hi:
+                return False
+            w = L.w
+            return SymBool(L.t >= z3.BitVecVal(k % (1 << w), w))
+        # -g*L >= bound  <=>  L <= floor(-bound / g)
+        k = (-bound) // g
+        if isinstance(L, int):
+            return L <= k
+        if k >= L.hi:
+            return True
+        if k < L.lo:
+            return False
+        w = L.w
+        return SymBool(L.t <= z3.BitVecVal(k % (1 << w), w))
 
     def __lt__(self, o):
         return self._cmp(o, "lt")
@@ -441,7 +556,7 @@ class SymInt:
         raise Unsupported("format() of a symbolic int outside the rewritten call sites")
 
     def __repr__(self):
-        return "SymInt[w%d,%d..%d]" % (self.w, self.lo, self.hi)
+        return "SymInt[%d atoms,%d..%d]" % (len(self.atoms), self.lo, self.hi)
 
 
 class _Const(SymInt):
@@ -450,17 +565,32 @@ class _Const(SymInt):
     __slots__ = ()
 
     def __init__(self, v):
-        w = _width_for(v, v)
-        SymInt.__init__(self, z3.BitVecVal(v, w), v, v)
+        self.atoms, self.c0, self.lo, self.hi, self._t = {}, v, v, v, None
+
+    @property
+    def t(self):
+        w = _width_for(self.c0, self.c0)
+        return z3.BitVecVal(self.c0 % (1 << w), w)
 
 
 def i_ite(c, a, b):
-    """integer if-then-else; c SymBool|bool, a/b int|SymInt"""
+    """integer if-then-else; c SymBool|bool, a/b int|SymInt:   b + ite(c, a - b, 0)"""
     if isinstance(c, bool):
         return a if c else b
-    A, B = SymInt._coerce(a), SymInt._coerce(b)
-    w = max(A.w, B.w)
-    return SymInt.mk(z3.If(bterm(c), A.term(w), B.term(w)), min(A.lo, B.lo), max(A.hi, B.hi))
+    d = a - b
+    if isinstance(d, int):
+        if d == 0:
+            return b
+        w = _width_for(min(d, 0), max(d, 0))
+        atom = SymInt(z3.If(bterm(c), z3.BitVecVal(d % (1 << w), w), z3.BitVecVal(0, w)), min(d, 0), max(d, 0))
+    else:
+        w = _width_for(min(d.lo, 0), max(d.hi, 0))
+        atom = SymInt(z3.If(bterm(c), d.term(w), z3.BitVecVal(0, w)), min(d.lo, 0), max(d.hi, 0))
+    r = b + atom
+    if isinstance(r, SymInt):
+        A, B = SymInt._coerce(a), SymInt._coerce(b)
+        r = r.refine(min(A.lo, B.lo), max(A.hi, B.hi))
+    return r
 
 
 def i_term(x, w):
@@ -1377,6 +1507,14 @@ def merge_choice(idx, res):
         return first
     if all(isinstance(v, bool) for v in vals):
         return b_or(*[i_eq(idx, k) for k, v in res if v])
+    if all(isinstance(v, int) and not isinstance(v, bool) for v in vals):
+        lo, hi = min(vals), max(vals)
+        w = _width_for(lo, hi)
+        it = SymInt._coerce(idx)
+        out = z3.BitVecVal(vals[-1] % (1 << w), w)
+        for k, v in reversed(res[:-1]):
+            out = z3.If(it.t == z3.BitVecVal(k % (1 << it.w), it.w), z3.BitVecVal(v % (1 << w), w), out)
+        return SymInt(out, lo, hi)
     if all(isinstance(v, (int, SymInt)) and not isinstance(v, bool) for v in vals):
         out = vals[-1]
         for k, v in reversed(res[:-1]):
